@@ -6,7 +6,7 @@ import ast
 from ..core import Ctx
 from ..match import (_atoms_with_polarity, arg, call_name, calls, expr_context_facts, fact_of, facts_at, local_defs, mentions, rchain, resolve,
                      same_resolved, single_def, stores)
-from ..model import AnalysisError, FuncInfo, ancestors, chain, clone, const_value, enclosing_stmt, norm, parent, strip_cast, walk_no_nested
+from ..model import AnalysisError, FuncInfo, ancestors, chain, clone, const_value, enclosing_stmt, head, norm, parent, strip_cast, walk_no_nested
 
 LEVEL = "other"
 EXPLANATION = (
@@ -2148,6 +2148,7 @@ def _helper_facts(ctx: Ctx, net, fi: FuncInfo, f, depth: int = 1) -> list:
                 if depth > 0:
                     facts = facts + [g for h in facts for g in _helper_facts_local(ctx, net, t, h, depth - 1)]
                 mine = {}
+                facts = facts + [g for h in facts for g in _evaluation_facts(t, h)]
                 for h in facts:
                     if isinstance(h.left, (ast.For, ast.AsyncFor, ast.While)):
                         continue
@@ -2159,6 +2160,32 @@ def _helper_facts(ctx: Ctx, net, fi: FuncInfo, f, depth: int = 1) -> list:
                     mine[(ast.dump(atom), g.pos)] = g
                 common = mine if common is None else {k: v for k, v in common.items() if k in mine}
     return list((common or {}).values())
+
+
+def _evaluation_facts(t: FuncInfo, h) -> list:
+    """
+    Fact h of function t holds, so its atom was evaluated to the end: a read `self.<dict>[k]` in it (evaluated unconditionally, inside a
+    try whose handler takes the KeyError of a missing key, i.e. the function answers instead of failing for a missing key) did not raise,
+    which establishes the pre-check the look-before-you-leap spelling makes: `k in self.<dict>`.
+    """
+    if isinstance(h.left, (ast.For, ast.AsyncFor, ast.While)) or getattr(h.atom, "_parent", None) is None:
+        return []
+    out = []
+    for s in ast.walk(h.atom):
+        if not (isinstance(s, ast.Subscript) and isinstance(s.ctx, ast.Load) and (chain(s.value) or "").startswith("self.") and chain(s.value).count(".") == 1):
+            continue
+        cur, ok = s, True
+        while cur is not h.atom and ok:
+            up = parent(cur)
+            if up is None or isinstance(up, (ast.IfExp, ast.BoolOp, ast.Lambda, ast.ListComp, ast.SetComp, ast.DictComp, ast.GeneratorExp)):
+                ok = False
+            cur = up
+        if ok and _in_try_catching(t, s, ("KeyError", "LookupError")):
+            atom = ast.Compare(left=clone(s.slice), ops=[ast.In()], comparators=[clone(s.value)])
+            ast.copy_location(atom, s)
+            ast.fix_missing_locations(atom)
+            out.append(fact_of(atom, True))
+    return out
 
 
 def _helper_facts_local(ctx: Ctx, net, fi: FuncInfo, f, depth: int) -> list:
@@ -2536,9 +2563,40 @@ class _ReaderFlow:
             hit = (isinstance(n, ast.Call) and isinstance(n.func, ast.Attribute) and n.func.attr in ("remove", "pop", "clear", "discard", "difference_update",
                                                                                                     "intersection_update") and _is_name(n.func.value, held)) \
                 or (isinstance(n, (ast.Delete, ast.Assign)) and any(isinstance(t, ast.Subscript) and _is_name(t.value, held) for t in n.targets))
+            if hit and self._pruned_while_iterated(n, held):
+                continue        # reported: the in-place filter does not look at every cached member
             if hit:
                 raise AnalysisError(f"undecided: {self.fi.qualname} prunes the cached {self.index} entry in place (`{norm(n)[:60]}`) before `{norm(ret)[:40]}`; "
                                     "in-place filters are not followed")
+
+    def _pruned_while_iterated(self, n: ast.AST, held) -> bool:
+        """
+        The pruning statement n (x.remove(..) / x.pop(..) / del x[..]) runs inside `for .. in x` over the very list it shrinks, and the
+        loop goes on afterwards: the list iterator then skips the member that follows each removed one, so that member is never examined
+        - of two adjacent stale members the second stays in the answer.  A definite violation of "every kept member was validated".
+        """
+        if not (isinstance(n, ast.Delete) or isinstance(n, ast.Call) and n.func.attr in ("remove", "pop")):
+            return False
+        loop = next((a for a in ancestors(n) if isinstance(a, (ast.For, ast.AsyncFor)) and _is_name(a.iter, held)), None)
+        if loop is None:
+            return False
+        if isinstance(n, ast.Call) and not same_resolved(self.fi, n.func.value, loop.iter):
+            # another holder of the same list object: only when both names are bound to the same cache read
+            a, b = strip_cast(n.func.value), strip_cast(loop.iter)
+            if not (isinstance(a, ast.Name) and isinstance(b, ast.Name) and (single_def(self.fi, a.id) or (None,))[0] is not None
+                    and _is_name((single_def(self.fi, a.id) or (None,))[0], b.id)):
+                return False
+        cfg = self.cfg
+        heads = cfg.nodes_for(loop)
+        after = [v for m in cfg.nodes_for(enclosing_stmt(n)) for v, lab in m.succ if lab != "exc"]
+        if not any(h in cfg.reach(after, follow_exc=False) for h in heads):
+            return False        # the loop is left right after the removal: nothing is skipped
+        self.ctx.check(False, "coherence", self.fi, enclosing_stmt(n), f"{self.fi.name}: the cached {self.index} entry is filtered without skipping members",
+                       f"{self.fi.name} removes stale members from the cached {self.index} list while iterating over that same list "
+                       f"(`{head(loop)[:60]}` ... `{norm(n)[:50]}`): the list iterator skips the member that follows each removed one, so a stale member "
+                       "next to another stale member is never validated and is returned (and cached) as a lookup result; the next identical query "
+                       "removes it - asking changes the answer")
+        return True
 
     def _returns(self) -> None:
         """
@@ -2858,6 +2916,136 @@ def reader_validation(ctx: Ctx) -> dict[str, tuple[bool, str]]:
     return out
 
 
+def _null_knowledge_after(node, know: dict) -> dict:
+    """{local: "N" (None / falsy) | "T" (not None / truthy)} after CFG node `node` ran, given the knowledge it is reached with"""
+    a_ = node.ast
+    stored: set = set()
+    if a_ is None:
+        return know
+    if node.kind == "loop":
+        if isinstance(a_, (ast.For, ast.AsyncFor)):
+            stored = {n.id for n in ast.walk(a_.target) if isinstance(n, ast.Name)}
+    elif isinstance(a_, ast.ExceptHandler):
+        stored = {a_.name} if a_.name else set()
+    elif isinstance(a_, (ast.With, ast.AsyncWith)):
+        stored = {n.id for i in a_.items if i.optional_vars is not None for n in ast.walk(i.optional_vars) if isinstance(n, ast.Name)}
+    elif isinstance(a_, (ast.FunctionDef, ast.AsyncFunctionDef, ast.ClassDef)):
+        stored = {a_.name}
+    elif node.kind in ("stmt", "cond"):
+        stored = {n.id for n in walk_no_nested(a_) if isinstance(n, ast.Name) and isinstance(n.ctx, (ast.Store, ast.Del))}
+    if not stored:
+        return know
+    new = {k: v for k, v in know.items() if k not in stored}
+    if isinstance(a_, ast.Assign) and len(a_.targets) == 1 and isinstance(a_.targets[0], ast.Name):
+        v = strip_cast(a_.value)
+        if isinstance(v, ast.Constant) and v.value is None:
+            new[a_.targets[0].id] = "N"
+        elif isinstance(v, ast.Name) and v.id in know:
+            new[a_.targets[0].id] = know[v.id]
+    return new
+
+
+def _null_knowledge_of_edge(node, lab) -> tuple[str, str] | None:
+    """(local, "N" | "T") that the outcome `lab` of condition node `node` says about a local's being None / falsy"""
+    if node.kind != "cond" or lab not in (True, False) or node.ast is None:
+        return None
+    f = fact_of(node.ast, lab)
+    left = strip_cast(f.left)
+    if not isinstance(left, ast.Name):
+        return None
+    if f.op == "truthy":
+        return left.id, "T" if f.pos else "N"
+    if f.op in ("is", "eq") and isinstance(f.right, ast.Constant) and f.right.value is None:
+        return left.id, "N" if f.pos else "T"
+    return None
+
+
+def _stale_hit_rescans(ctx: Ctx, net) -> None:
+    """
+    get_verified_by_address answers "the verified peer that uses this address, or None".  The address cache only ever proves a POSITIVE
+    answer (a hit that is still verified and still uses the address); every other outcome of the cache read - a miss, or a hit that failed
+    its validation - says nothing about the other verified peers, so the answer must come from looking at self.verified_peers.  Decided on
+    the CFG: from the cache read, no normal exit may be reached without passing either the scan of the verified peers or a condition
+    outcome that completes the validation of the cached peer (both required facts).  Paths that a test of a local against None refutes
+    (`peer = None` ... `if not peer`) are not walked.  Not decided (no verdict) when the reader shows no recognisable validation edge at
+    all: the flow rule (reader validation) then speaks about the unvalidated return.
+    """
+    f = net.methods["get_verified_by_address"]
+    flow = _ReaderFlow(ctx, f, "reverse_ip_lookup", "elem", _ip_required)
+    if not flow.raws or flow.cfg is None:
+        return
+    cfg = flow.cfg
+    preds = [p_ for _lab, p_ in _ip_required(flow, None, None)]
+    held: set[str] = set()
+    for _round in range(3):
+        for n in walk_no_nested(f.node):
+            if isinstance(n, ast.Name) and isinstance(n.ctx, ast.Store) and n.id not in held:
+                for _st, v, idx in local_defs(f, n.id):
+                    if v is not None and idx is None and any(id(strip_cast(p_)) in flow.raw_ids or _is_name(p_, held) for p_ in _value_positions(v)):
+                        held.add(n.id)
+    if not held:
+        return
+    scans = _scans_verified(ctx, net, f, depth=2)
+    if not scans:
+        return          # "a cache miss scans self.verified_peers" is reported by the caller
+    scan_ids = {n.id for n in scans}
+    memo: dict = {}
+
+    def completes_validation(u, lab) -> bool:
+        k = (u.id, lab)
+        if k not in memo:
+            memo[k] = False
+            if u.kind == "cond" and lab in (True, False) and u.ast is not None:
+                try:
+                    own = flow.expand([fact_of(u.ast, lab)])
+                    if any(p_(g, held) for g in own for p_ in preds):
+                        every = own + flow.expand(list(_facts_here(ctx, f, u)))
+                        memo[k] = all(any(p_(g, held) for g in every) for p_ in preds)
+                except AnalysisError:
+                    raise
+                except Exception:  # noqa: BLE001
+                    memo[k] = False
+        return memo[k]
+    n_valid = sum(1 for u in cfg.nodes for _v, lab in u.succ if completes_validation(u, lab))
+    if n_valid == 0:
+        ctx.note("get_verified_by_address: no condition outcome recognisably completes the validation of the cached peer - 'a stale hit rescans' not decided")
+        return
+    starts = [(v, ()) for r in flow.raws for n in cfg.nodes_for(r) for v, lab in n.succ if lab != "exc"]
+    # the read itself may be the value of an assignment: knowledge starts behind it
+    seen: set = set()
+    stack = list(starts)
+    reached = None
+    while stack:
+        node, know_t = stack.pop()
+        if (node.id, know_t) in seen:
+            continue
+        seen.add((node.id, know_t))
+        if len(seen) > 20000:
+            raise AnalysisError("undecided: too many path states in Network.get_verified_by_address while following the outcomes of the address cache read")
+        if node is cfg.exit:
+            reached = node
+            break
+        if node.id in scan_ids:
+            continue
+        know = _null_knowledge_after(node, dict(know_t))
+        for v, lab in node.succ:
+            if lab == "exc":
+                continue
+            if completes_validation(node, lab):
+                continue
+            k2 = know
+            e_ = _null_knowledge_of_edge(node, lab)
+            if e_ is not None:
+                if know.get(e_[0], e_[1]) != e_[1]:
+                    continue        # refuted by what is known about the local on this path
+                k2 = {**know, e_[0]: e_[1]}
+            stack.append((v, tuple(sorted(k2.items()))))
+    ctx.check(reached is None, "coherence", f, f.node, "get_verified_by_address: a cache miss or a stale hit is answered from a scan of self.verified_peers",
+              "get_verified_by_address can answer without looking at self.verified_peers although the address cache gave no valid hit (a miss, or a cached peer "
+              "that is no longer verified / no longer uses the address): the cache entry says nothing about the OTHER verified peers, so a verified peer that "
+              "uses the address is not found by lookup by address (and the stale entry is gone afterwards: asking again gives another answer)")
+
+
 def rule_matrix(ctx: Ctx) -> None:
     sites = mutation_sites(ctx)
     # confirmed: every authoritative collection is both extended and reduced somewhere in network.py (how many statements do it is a
@@ -2921,6 +3109,7 @@ def rule_matrix(ctx: Ctx) -> None:
         scans = _reach_sites(ctx, net, f, lambda g, auth=auth: [n for n in ast.walk(g.node) if isinstance(n, (ast.For, ast.comprehension))
                                                                 and (mentions(n.iter, auth) or (auth == "self.verified_peers" and _resolves_to(g, n.iter, lambda y: _verified_members(g, y))))])
         ctx.check(bool(scans), "coherence", f, f.node, f"{name}: a cache miss scans {auth}", f"{name} does not recompute from {auth} on a cache miss")
+    _stale_hit_rescans(ctx, net)
     # readers do not change the answer: they only write their own cache
     for name in _QUERIES:
         f = net.methods[name]
@@ -3579,6 +3768,8 @@ def rule_removal(ctx: Ctx) -> None:
             if (isinstance(it, ast.Call) and isinstance(it.func, ast.Attribute) and it.func.attr in ("values", "items") and chain(it.func.value) == f"self.{index}") \
                     or (isinstance(loop.target, ast.Name) and _yields_entries(fi, it, index, ctx)):
                 names = {x.id for x in ast.walk(loop.target) if isinstance(x, ast.Name)}
+                if not _exhaustive(ctx.cfg(fi), loop):
+                    continue        # left by break / return before every cached list was looked at: the peer stays in the remaining lists
                 for c in ast.walk(loop):
                     if isinstance(c, ast.Call) and isinstance(c.func, ast.Attribute) and c.func.attr in ("remove", "discard", "pop", "clear") \
                             and isinstance(c.func.value, ast.Name) and c.func.value.id in names:
@@ -3759,6 +3950,30 @@ def rule_snapshot_codec(ctx: Ctx) -> None:
     ctx.check(not grows, "snapshot-codec", ld, ld.node, "load_snapshot makes addresses walkable, not verified", "load_snapshot creates verified peers")
 
 
+def _pulled_and_private(ctx: Ctx, fi: FuncInfo) -> bool:
+    """fi lives outside network.py, the local view analysed its code in place of the calls, and nothing but network.py can run it:
+    a module-level function only network.py names, or a method of a base class that only Network (and its subclasses) inherit"""
+    top = fi
+    while "." in top.qualname and top.cls is None:      # a nested function: judged by its outermost function
+        outer = ctx.repo.function_of(parent(top.node)) if parent(top.node) is not None else None
+        if outer is None or outer is top:
+            break
+        top = outer
+    if (top.module.relpath, top.qualname) not in _PULLED:
+        return False
+    if top.cls is not None:
+        net = ctx.repo.cls("Network", NW)
+        return all(net in s.mro() for s in top.cls.all_subclasses()) and bool(top.cls.all_subclasses()) \
+            and not any(m.relpath != top.module.relpath and isinstance(c.func, ast.Name) and c.func.id == top.cls.name for m, _f, c in ctx.repo.callers_of_name(top.cls.name))
+    for m, _f, c in ctx.repo.callers_of_name(top.name):
+        if m.relpath not in (NW, top.module.relpath) and (isinstance(c.func, ast.Name) or "network" in (chain(c.func) or "").lower()):
+            return False
+    for m in ctx.repo.by_relpath.values():
+        if m.relpath not in (NW, top.module.relpath) and any(imp[1] == top.name and imp[0] == top.module.name for imp in m.imports.values()):
+            return False
+    return True
+
+
 def rule_external_writers(ctx: Ctx) -> None:
     repo = ctx.repo
     n = 0
@@ -3766,6 +3981,8 @@ def rule_external_writers(ctx: Ctx) -> None:
         for m, fi, a in repo.attribute_uses(name):
             if m.relpath == NW:
                 continue
+            if fi is not None and _pulled_and_private(ctx, fi):
+                continue        # code the local view analyses as part of Network (a helper / mixin method moved out of network.py)
             if name == "verified_peers" and chain(a.value) is not None and not (chain(a.value) or "").endswith("network"):
                 continue
             n += 1
@@ -4121,11 +4338,713 @@ def rule_walkable_and_peer(ctx: Ctx) -> None:
     ctx.floor("coherence.cache-exists", n, 2)
 
 
+# ------------------------------------------------------------------------------------------------------------------
+# LOCAL VIEW.  Behaviour-preserving source rewrites of the analysed files that the load-time normaliser does not do, applied before the
+# rules run (the result is loaded as a variant of the repository, so the normaliser then inlines what these rewrites turned into NEW
+# same-file helpers).  Nothing is rewritten on the reviewed tree (none of the constructs occurs there).  Every rewrite keeps the
+# behaviour of Network / Peer objects:
+#   * a method decorated with a repository-defined decorator of the plain wrapper shape IS the wrapper with `func` bound to the
+#     undecorated body: the body becomes a new private method, the method becomes the wrapper body calling it;
+#   * a NEW function of another module that this file calls by an imported name is copied into this file (its free names must denote
+#     the same objects here); a module-level function that is only ever called as f(self, ..) from the methods of one class is that
+#     class's private method; the NEW methods of a base class / mixin are the subclass's methods unless it overrides them;
+#   * all((a, b)) / any((a, b)) over a literal of side-effect-free operands in a test is `a and b` / `a or b`; membership of a pure
+#     path in a small constant frozenset / tuple of literals is the or-chain of equalities;
+#   * `i = 0; while i < len(xs): .. xs[i] ..; i += 1` over a list that the body does not change is `for x in xs`.
+
+_VIEW_FILES = (NW, "ipv8/peer.py")
+_PULLED: set = set()        # (relpath, qualname) of functions / methods outside the view files whose code the view analyses in place of the call
+_BUILTIN_DECOS = ("staticmethod", "classmethod", "property")
+_PURE_METHODS = ("get", "values", "keys", "items", "key_to_bin", "copy")
+
+
+def _v_strip_annotations(fn):
+    class T(ast.NodeTransformer):
+        def visit_AnnAssign(self, n):
+            self.generic_visit(n)
+            if n.value is None:
+                return ast.copy_location(ast.Pass(), n)
+            return ast.copy_location(ast.Assign(targets=[n.target], value=n.value), n)
+    fn = T().visit(fn)
+    for n in ast.walk(fn):
+        if isinstance(n, (ast.FunctionDef, ast.AsyncFunctionDef)):
+            n.returns = None
+            a = n.args
+            for x in [*a.posonlyargs, *a.args, *a.kwonlyargs, a.vararg, a.kwarg]:
+                if x is not None:
+                    x.annotation = None
+    return fn
+
+
+def _v_free_names(fn) -> set[str]:
+    import builtins
+    bound = set()
+    for n in ast.walk(fn):
+        if isinstance(n, ast.arg):
+            bound.add(n.arg)
+        elif isinstance(n, ast.Name) and isinstance(n.ctx, (ast.Store, ast.Del)):
+            bound.add(n.id)
+        elif isinstance(n, ast.ExceptHandler) and n.name:
+            bound.add(n.name)
+        elif isinstance(n, (ast.FunctionDef, ast.AsyncFunctionDef, ast.ClassDef)) and n is not fn:
+            bound.add(n.name)
+        elif isinstance(n, (ast.Import, ast.ImportFrom)):
+            bound |= {(a.asname or a.name).split(".")[0] for a in n.names}
+    return {n.id for n in ast.walk(fn) if isinstance(n, ast.Name) and isinstance(n.ctx, ast.Load) and n.id not in bound and not hasattr(builtins, n.id)}
+
+
+def _v_toplevel_names(tree: ast.Module) -> set[str]:
+    out = set()
+
+    def visit(body):
+        for st in body:
+            if isinstance(st, (ast.FunctionDef, ast.AsyncFunctionDef, ast.ClassDef)):
+                out.add(st.name)
+            elif isinstance(st, (ast.Import, ast.ImportFrom)):
+                out.update((a.asname or a.name).split(".")[0] for a in st.names)
+            elif isinstance(st, (ast.Assign, ast.AnnAssign, ast.AugAssign)):
+                for t in (st.targets if isinstance(st, ast.Assign) else [st.target]):
+                    out.update(n.id for n in ast.walk(t) if isinstance(n, ast.Name))
+            elif isinstance(st, ast.If):
+                visit(st.body)
+                visit(st.orelse)
+            elif isinstance(st, ast.Try):
+                visit(st.body)
+                for h in st.handlers:
+                    visit(h.body)
+                visit(st.orelse)
+                visit(st.finalbody)
+    visit(tree.body)
+    return out
+
+
+def _v_methods(cnode: ast.ClassDef):
+    return [st for st in cnode.body if isinstance(st, (ast.FunctionDef, ast.AsyncFunctionDef))]
+
+
+def _v_class_member_names(cnode: ast.ClassDef, defined_only: bool = False) -> set[str]:
+    out = {st.name for st in cnode.body if isinstance(st, (ast.FunctionDef, ast.AsyncFunctionDef, ast.ClassDef))}
+    for n in ast.walk(cnode):
+        if isinstance(n, ast.Attribute) and isinstance(n.value, ast.Name) and n.value.id in ("self", "cls") and not (defined_only and isinstance(n.ctx, ast.Load)):
+            out.add(n.attr)
+        elif isinstance(n, ast.Name) and isinstance(n.ctx, ast.Store):
+            out.add(n.id)
+    return out
+
+
+class _View:
+    def __init__(self, repo, m, tree: ast.Module, table: dict) -> None:
+        self.repo, self.m, self.tree, self.table = repo, m, tree, table
+        self.toplevel = _v_toplevel_names(tree)
+        self.done: dict = {}
+        self.new_defs: list = []        # statements to put in front of the first class / function of the module
+        self.n = 0
+
+    def known(self, relpath: str, qualname: str) -> bool:
+        return qualname in self.table.get(relpath, {})
+
+    # ---- names of another module, made available here
+    def same_binding(self, src_mod, name: str) -> bool:
+        a, b = self.repo.resolve_name(src_mod, name), self.repo.resolve_name(self.m, name)
+        if a is not None or b is not None:
+            if isinstance(a, tuple) and isinstance(b, tuple):
+                return len(a) == len(b) and all(x is y for x, y in zip(a, b))
+            return a is b
+        ia, ib = src_mod.imports.get(name), self.m.imports.get(name)
+        return ia is not None and ia == ib
+
+    def ensure(self, src_mod, name: str) -> bool:
+        if src_mod is self.m:
+            return True
+        if (src_mod.relpath, name) in self.done:
+            return self.done[(src_mod.relpath, name)] == name
+        if name in self.toplevel:
+            return self.same_binding(src_mod, name)
+        if name in src_mod.functions:
+            return self.pull_function(src_mod.functions[name]) == name
+        if name in src_mod.constants:
+            expr = src_mod.constants[name]
+            if any(isinstance(x, ast.Name) and not hasattr(__import__("builtins"), x.id) for x in ast.walk(expr)):
+                return False
+            self.new_defs.append(ast.Assign(targets=[ast.Name(id=name, ctx=ast.Store())], value=clone(expr)))
+            self.toplevel.add(name)
+            return True
+        if name in src_mod.imports:
+            mod, attr = src_mod.imports[name]
+            if attr is None:
+                if mod != name:
+                    self.new_defs.append(ast.Import(names=[ast.alias(name=mod, asname=name)]))
+                else:
+                    self.new_defs.append(ast.Import(names=[ast.alias(name=mod, asname=None)]))
+            else:
+                self.new_defs.append(ast.ImportFrom(module=mod, names=[ast.alias(name=attr, asname=name if name != attr else None)], level=0))
+            self.toplevel.add(name)
+            return True
+        return False
+
+    def pull_function(self, t: FuncInfo) -> str | None:
+        """the module-level name under which the NEW function t of another module is available in this file (its code copied), or None"""
+        key = (t.module.relpath, t.qualname)
+        if key in self.done:
+            return self.done[key]
+        self.done[key] = None
+        if t.cls is not None or t.node.decorator_list or "." in t.qualname or self.known(*key) or t.module is self.m:
+            return None
+        if t.name in self.toplevel and self.repo.resolve_name(self.m, t.name) is not t:
+            return None
+        self.done[key] = t.name         # recursion: a function that calls itself
+        fn = _v_strip_annotations(clone(t.node))
+        for name in sorted(_v_free_names(fn)):
+            if name != t.name and not self.ensure(t.module, name):
+                self.done[key] = None
+                return None
+        self.new_defs.append(fn)
+        self.toplevel.add(t.name)
+        _PULLED.add(key)
+        self.n += 1
+        return t.name
+
+    def foreign_target(self, call: ast.Call) -> FuncInfo | None:
+        f = call.func
+        r = None
+        if isinstance(f, ast.Name):
+            r = self.repo.resolve_name(self.m, f.id)
+        elif isinstance(f, ast.Attribute) and isinstance(f.value, ast.Name) and f.value.id not in ("self", "cls"):
+            b = self.repo.resolve_name(self.m, f.value.id)
+            if isinstance(b, tuple) and b[0] == "module" and b[1] is not None:
+                r = b[1].functions.get(f.attr)
+        return r if isinstance(r, FuncInfo) and r.module is not self.m and r.cls is None else None
+
+    def pull_called_functions(self) -> None:
+        for _round in range(3):
+            before = self.n
+            for c in [n for n in ast.walk(self.tree) if isinstance(n, ast.Call)]:
+                t = self.foreign_target(c)
+                if t is None:
+                    continue
+                name = self.pull_function(t)
+                if name is not None and not (isinstance(c.func, ast.Name) and c.func.id == name):
+                    c.func = ast.Name(id=name, ctx=ast.Load())
+            if self.n == before:
+                break
+
+    # ---- mixins / base classes
+    def pull_base_methods(self) -> None:
+        for cnode in [st for st in self.tree.body if isinstance(st, ast.ClassDef)]:
+            ci = self.m.classes.get(cnode.name)
+            if ci is None:
+                continue
+            have = _v_class_member_names(cnode, defined_only=True)
+            for b in ci.mro()[1:]:
+                for meth in _v_methods(b.node):
+                    if meth.name in have or self.known(b.module.relpath, f"{b.name}.{meth.name}") or (meth.name.startswith("__") and meth.name.endswith("__")):
+                        continue
+                    if any(not (isinstance(d, ast.Name) and d.id in _BUILTIN_DECOS) for d in meth.decorator_list):
+                        continue
+                    if any(isinstance(x, ast.Name) and x.id == "super" for x in ast.walk(meth)):
+                        continue
+                    if len(b.all_subclasses()) != len({id(s) for s in b.all_subclasses() if ci in s.mro()}):
+                        continue        # shared with a class that is not this one (or a subclass of it): not this class's private code
+                    fn = _v_strip_annotations(clone(meth))
+                    if b.module is not self.m and not all(self.ensure(b.module, nm) for nm in sorted(_v_free_names(fn))):
+                        continue
+                    cnode.body.append(fn)
+                    have.add(meth.name)
+                    _PULLED.add((b.module.relpath, f"{b.name}.{meth.name}"))
+                    self.n += 1
+
+    # ---- f(self, ..) -> self._f(..)
+    def methodize(self) -> None:
+        funcs = {st.name: st for st in [*self.tree.body, *self.new_defs] if isinstance(st, (ast.FunctionDef, ast.AsyncFunctionDef))
+                 and not self.known(self.m.relpath, st.name) and not st.decorator_list}
+        if not funcs:
+            return
+        owner: dict = {}        # function name -> class node | False
+        sites: dict = {}
+        static: set = set()     # called other than as f(self, ..): a static method of the class
+        callee_ids = set()
+        for cnode in [st for st in self.tree.body if isinstance(st, ast.ClassDef)]:
+            for meth in _v_methods(cnode):
+                a = meth.args.posonlyargs + meth.args.args
+                for c in [n for n in ast.walk(meth) if isinstance(n, ast.Call)]:
+                    if isinstance(c.func, ast.Name) and c.func.id in funcs:
+                        ok = bool(a) and a[0].arg == "self" \
+                            and not any(isinstance(d, ast.Name) and d.id in ("staticmethod", "classmethod") for d in meth.decorator_list)
+                        nm = c.func.id
+                        if not ok or owner.get(nm, cnode) is not cnode:
+                            owner[nm] = False
+                        else:
+                            owner[nm] = cnode
+                            sites.setdefault(nm, []).append(c)
+                            callee_ids.add(id(c.func))
+                            if not (c.args and isinstance(c.args[0], ast.Name) and c.args[0].id == "self"):
+                                static.add(nm)
+        for n in ast.walk(self.tree):
+            if isinstance(n, ast.Name) and n.id in funcs and id(n) not in callee_ids and isinstance(n.ctx, ast.Load):
+                owner[n.id] = False         # referenced other than as f(self, ..) inside a method
+        for fn in [*funcs.values()]:
+            for n in ast.walk(fn):
+                if isinstance(n, ast.Name) and n.id in funcs and isinstance(n.ctx, ast.Load):
+                    owner[n.id] = False     # called from a module-level function
+        for nm, cnode in owner.items():
+            fn = funcs[nm]
+            a = fn.args.posonlyargs + fn.args.args
+            if not cnode:
+                continue
+            is_static = nm in static or not a or bool(fn.args.defaults and len(fn.args.defaults) == len(a))
+            first = a[0].arg if a else ""
+            if not is_static and first != "self" and any(isinstance(x, ast.Name) and x.id == "self" or isinstance(x, ast.arg) and x.arg == "self" for x in ast.walk(fn)):
+                is_static = True
+            members = _v_class_member_names(cnode)
+            new = nm if nm.startswith("_") else "_" + nm
+            if new in members:
+                new += "_impl"
+            if new in members:
+                continue
+            if fn in self.tree.body:
+                self.tree.body.remove(fn)
+            else:
+                self.new_defs.remove(fn)
+            for x in ast.walk(fn):
+                if is_static:
+                    break
+                if isinstance(x, ast.Name) and x.id == first:
+                    x.id = "self"
+                elif isinstance(x, ast.arg) and x.arg == first:
+                    x.arg = "self"
+            for x in ast.walk(fn):      # a recursive call
+                if isinstance(x, ast.Name) and x.id == nm:
+                    is_static = None
+            if is_static is None:
+                continue
+            fn.name = new
+            if is_static:
+                fn.decorator_list = [ast.Name(id="staticmethod", ctx=ast.Load())]
+            cnode.body.append(fn)
+            for c in sites[nm]:
+                c.func = ast.Attribute(value=ast.Name(id="self", ctx=ast.Load()), attr=new, ctx=ast.Load())
+                if not is_static:
+                    del c.args[0]
+            self.n += 1
+
+    # ---- decorators
+    def decorator_def(self, d: ast.AST):
+        """(decorator function node, its module, {factory parameter: argument}) for `@d` / `@d(args)` naming a repository function"""
+        call = d if isinstance(d, ast.Call) else None
+        f = d.func if call is not None else d
+        r = None
+        if isinstance(f, ast.Name):
+            r = self.repo.resolve_name(self.m, f.id)
+        elif isinstance(f, ast.Attribute) and isinstance(f.value, ast.Name):
+            b = self.repo.resolve_name(self.m, f.value.id)
+            if isinstance(b, tuple) and b[0] == "module" and b[1] is not None:
+                r = b[1].functions.get(f.attr)
+        if not isinstance(r, FuncInfo) or r.cls is not None or r.node.decorator_list or isinstance(r.node, ast.AsyncFunctionDef):
+            return None
+        if self.known(r.module.relpath, r.qualname):
+            return None
+        return r, call
+
+    @staticmethod
+    def _deco_shape(node):
+        """a function `def d(func): [doc]; [@wraps(func)] def w(..): ..; return w` -> (func parameter, wrapper def)"""
+        a = node.args
+        if a.vararg or a.kwarg or a.kwonlyargs or a.defaults or len(a.posonlyargs + a.args) != 1:
+            return None
+        body = [st for st in node.body if not (isinstance(st, ast.Expr) and isinstance(st.value, ast.Constant))]
+        if len(body) != 2 or not isinstance(body[0], (ast.FunctionDef, ast.AsyncFunctionDef)) or not isinstance(body[1], ast.Return) \
+                or not (isinstance(body[1].value, ast.Name) and body[1].value.id == body[0].name):
+            return None
+        w = body[0]
+        for dd in w.decorator_list:
+            if not (isinstance(dd, ast.Call) and (chain(dd.func) or "").split(".")[-1] == "wraps"):
+                return None
+        return (a.posonlyargs + a.args)[0].arg, w
+
+    def expand_decorators(self) -> None:
+        for cnode in [st for st in self.tree.body if isinstance(st, ast.ClassDef)]:
+            for meth in list(_v_methods(cnode)):
+                while meth.decorator_list:
+                    new = self.expand_one(cnode, meth)
+                    if new is None:
+                        break
+                    meth = new
+
+    def expand_one(self, cnode: ast.ClassDef, meth):
+        d = meth.decorator_list[-1]         # the innermost decorator is applied first
+        dd = self.decorator_def(d)
+        if dd is None:
+            return None
+        r, call = dd
+        node = r.node
+        subst: dict = {}
+        if call is not None:
+            # a decorator factory: def d(a, b): def deco(func): ..; return deco
+            a = node.args
+            params = [x.arg for x in a.posonlyargs + a.args]
+            if a.vararg or a.kwarg or a.kwonlyargs or any(isinstance(x, ast.Starred) for x in call.args) or any(k.arg is None for k in call.keywords):
+                return None
+            body = [st for st in node.body if not (isinstance(st, ast.Expr) and isinstance(st.value, ast.Constant))]
+            if len(body) != 2 or not isinstance(body[0], ast.FunctionDef) or not isinstance(body[1], ast.Return) \
+                    or not (isinstance(body[1].value, ast.Name) and body[1].value.id == body[0].name) or body[0].decorator_list:
+                return None
+            given = dict(zip(params, call.args))
+            given.update({k.arg: k.value for k in call.keywords})
+            defaults = dict(zip(params[len(params) - len(a.defaults):], a.defaults))
+            for p_ in params:
+                v = given.get(p_, defaults.get(p_))
+                if v is None or not (isinstance(v, ast.Constant) or chain(v) is not None and not isinstance(v, ast.Call)):
+                    return None
+                subst[p_] = v
+            if len(given) > len(params) or set(given) - set(params):
+                return None
+            node = body[0]
+        shape = self._deco_shape(node)
+        if shape is None:
+            return None
+        fparam, w = shape
+        if isinstance(w, ast.AsyncFunctionDef) != isinstance(meth, ast.AsyncFunctionDef):
+            return None
+        if any(isinstance(x, (ast.FunctionDef, ast.AsyncFunctionDef, ast.Lambda, ast.ClassDef, ast.Global, ast.Nonlocal)) for st in w.body for x in ast.walk(st)):
+            return None
+        ma, wa = meth.args, w.args
+        mpos = [x.arg for x in ma.posonlyargs + ma.args]
+        wpos = [x.arg for x in wa.posonlyargs + wa.args]
+        if not mpos or not wpos or ma.vararg or ma.kwarg or wa.kwonlyargs or wa.defaults:
+            return None
+        if any(isinstance(dd_, ast.Name) and dd_.id in _BUILTIN_DECOS for dd_ in meth.decorator_list):
+            return None
+        star = (wa.vararg.arg if wa.vararg else None, wa.kwarg.arg if wa.kwarg else None)
+        if star == (None, None):
+            if len(wpos) != len(mpos) or ma.kwonlyargs:
+                return None
+        elif len(wpos) > len(mpos):
+            return None
+        wbody = [clone(st) for st in w.body]
+        rename = {wp: mp for wp, mp in zip(wpos, mpos)}
+        locals_w = {x.id for st in wbody for x in ast.walk(st) if isinstance(x, ast.Name) and isinstance(x.ctx, ast.Store)}
+        if locals_w & (set(mpos) | {x.arg for x in ma.kwonlyargs}) or set(rename.values()) & (set(wpos) - set(rename)):
+            return None
+        inner_name = f"_{meth.name.strip('_')}_undecorated"
+        members = _v_class_member_names(cnode)
+        while inner_name in members:
+            inner_name += "_"
+        # the call of the undecorated function: func(<wrapper's positional parameters in order>, *args, **kwargs)
+        state = {"ok": True, "calls": 0}
+        rest_pos = mpos[len(wpos):]
+        kwonly = [x.arg for x in ma.kwonlyargs]
+
+        class T(ast.NodeTransformer):
+            def visit_Call(self, c):
+                if not (isinstance(c.func, ast.Name) and c.func.id == fparam):
+                    return self.generic_visit(c)
+                plain = [x for x in c.args if not isinstance(x, ast.Starred)]
+                starred = [x for x in c.args if isinstance(x, ast.Starred)]
+                kws = [k for k in c.keywords if k.arg is not None]
+                dstar = [k for k in c.keywords if k.arg is None]
+                if [getattr(x, "id", None) for x in plain] != wpos or kws or (starred and c.args[-len(starred):] != starred):
+                    state["ok"] = False
+                    return c
+                if star != (None, None):
+                    want_s = [star[0]] if star[0] else []
+                    want_d = [star[1]] if star[1] else []
+                    if [getattr(x.value, "id", None) for x in starred] != want_s or [getattr(k.value, "id", None) for k in dstar] != want_d:
+                        state["ok"] = False
+                        return c
+                    if (rest_pos and not star[0]) or (kwonly and not star[1]):
+                        state["ok"] = False
+                        return c
+                elif starred or dstar:
+                    state["ok"] = False
+                    return c
+                state["calls"] += 1
+                names = mpos[1:len(wpos)] + (rest_pos if star != (None, None) else [])
+                return ast.Call(func=ast.Attribute(value=ast.Name(id=mpos[0], ctx=ast.Load()), attr=inner_name, ctx=ast.Load()),
+                                args=[ast.Name(id=x, ctx=ast.Load()) for x in names],
+                                keywords=[ast.keyword(arg=x, value=ast.Name(id=x, ctx=ast.Load())) for x in (kwonly if star != (None, None) else [])])
+
+            def visit_Name(self, x):
+                if x.id == fparam or x.id in star:
+                    state["ok"] = False
+                elif x.id in rename:
+                    return ast.copy_location(ast.Name(id=rename[x.id], ctx=x.ctx), x)
+                elif x.id in subst and isinstance(x.ctx, ast.Load):
+                    return clone(subst[x.id])
+                elif x.id in subst:
+                    state["ok"] = False
+                return x
+
+        tr = T()
+        new_body = [tr.visit(st) for st in wbody]
+        if not state["ok"] or state["calls"] == 0:
+            return None
+        if r.module is not self.m:
+            probe = clone(meth)
+            probe.body, probe.decorator_list = new_body, []
+            probe = _v_strip_annotations(probe)
+            if not all(self.ensure(r.module, nm) for nm in sorted(_v_free_names(probe))):
+                return None
+        inner = clone(meth)
+        inner.name, inner.decorator_list = inner_name, []
+        outer = clone(meth)
+        outer.decorator_list = [clone(x) for x in meth.decorator_list[:-1]]
+        outer.body = [*([outer.body[0]] if _v_is_doc(outer.body[0]) else []), *new_body]
+        if _v_is_doc(inner.body[0]) and len(inner.body) > 1:
+            inner.body = inner.body[1:]
+        i = cnode.body.index(meth)
+        cnode.body[i:i + 1] = [outer, inner]
+        _PULLED.add((r.module.relpath, r.qualname))
+        self.n += 1
+        return outer
+
+
+def _v_is_doc(st) -> bool:
+    return isinstance(st, ast.Expr) and isinstance(st.value, ast.Constant) and isinstance(st.value.value, str)
+
+
+# ---- expression / loop rewrites
+
+def _v_may_fail(e: ast.AST) -> bool:
+    """e contains a subscript read that is evaluated whenever e is (not behind an `and` / `or` / conditional of e itself): evaluating e
+    eagerly can raise where the short-circuit spelling would not have evaluated it"""
+    if isinstance(e, ast.Subscript):
+        return True
+    if isinstance(e, ast.BoolOp):
+        return _v_may_fail(e.values[0])
+    if isinstance(e, ast.IfExp):
+        return _v_may_fail(e.test)
+    return any(_v_may_fail(c) for c in ast.iter_child_nodes(e))
+
+
+def _v_pure_operand(e: ast.AST) -> bool:
+    for x in ast.walk(e):
+        if isinstance(x, ast.Call):
+            if not (isinstance(x.func, ast.Attribute) and x.func.attr in _PURE_METHODS):
+                return False
+        elif isinstance(x, (ast.NamedExpr, ast.Await, ast.Yield, ast.YieldFrom, ast.Lambda, ast.ListComp, ast.SetComp, ast.DictComp, ast.GeneratorExp)):
+            return False
+    return True
+
+
+def _v_pure_path(e: ast.AST) -> bool:
+    while isinstance(e, ast.Attribute):
+        e = e.value
+    return isinstance(e, ast.Name)
+
+
+def _v_literal(e: ast.AST) -> bool:
+    if isinstance(e, ast.Constant):
+        return True
+    return isinstance(e, ast.Tuple) and all(_v_literal(x) for x in e.elts)
+
+
+class _VExpr(ast.NodeTransformer):
+    """all((a, b)) / any((a, b)) in tests; membership in a small constant collection of literals"""
+
+    def __init__(self, view: "_View") -> None:
+        self.view = view
+        self.n = 0
+        self.locals: list[set] = []
+
+    def _fn(self, n):
+        bound = {x.arg for x in ast.walk(n.args) if isinstance(x, ast.arg)} | {x.id for x in ast.walk(n) if isinstance(x, ast.Name) and isinstance(x.ctx, ast.Store)}
+        self.locals.append(bound)
+        self.generic_visit(n)
+        self.locals.pop()
+        return n
+    visit_FunctionDef = visit_AsyncFunctionDef = visit_Lambda = _fn
+
+    def _test(self, e: ast.AST) -> ast.AST:
+        """e in a position where only its truth value matters"""
+        if isinstance(e, ast.BoolOp):
+            e.values = [self._test(v) for v in e.values]
+            return e
+        if isinstance(e, ast.UnaryOp) and isinstance(e.op, ast.Not):
+            e.operand = self._test(e.operand)
+            return e
+        if isinstance(e, ast.Call) and isinstance(e.func, ast.Name) and e.func.id in ("all", "any") and len(e.args) == 1 and not e.keywords \
+                and isinstance(e.args[0], (ast.Tuple, ast.List)) and len(e.args[0].elts) >= 2 \
+                and not any(isinstance(x, ast.Starred) for x in e.args[0].elts) and all(_v_pure_operand(x) for x in e.args[0].elts) \
+                and not any(_v_may_fail(x) for x in e.args[0].elts[1:]):
+            self.n += 1
+            return ast.copy_location(ast.BoolOp(op=ast.And() if e.func.id == "all" else ast.Or(), values=[self._test(x) for x in e.args[0].elts]), e)
+        return e
+
+    def visit_If(self, n):
+        self.generic_visit(n)
+        n.test = self._test(n.test)
+        return n
+    visit_While = visit_IfExp = visit_Assert = visit_If
+
+    def visit_comprehension(self, n):
+        self.generic_visit(n)
+        n.ifs = [self._test(x) for x in n.ifs]
+        return n
+
+    def _members(self, e: ast.AST):
+        if not isinstance(e, ast.Name) or any(e.id in s for s in self.locals):
+            return None
+        r = self.view.repo.resolve_name(self.view.m, e.id)
+        if not (isinstance(r, tuple) and r[0] == "const"):
+            return None
+        v = r[2]
+        if isinstance(v, ast.Call) and isinstance(v.func, ast.Name) and v.func.id in ("frozenset", "set", "tuple") and len(v.args) == 1 and not v.keywords:
+            v = v.args[0]
+        if isinstance(v, (ast.Set, ast.Tuple, ast.List)) and 1 <= len(v.elts) <= 4 and all(_v_literal(x) for x in v.elts):
+            # the name must be bound exactly once at module level (a constant)
+            return list(v.elts)
+        return None
+
+    def visit_Compare(self, n):
+        self.generic_visit(n)
+        if len(n.ops) == 1 and isinstance(n.ops[0], (ast.In, ast.NotIn)) and _v_pure_path(n.left):
+            elts = self._members(n.comparators[0])
+            if elts is not None:
+                neg = isinstance(n.ops[0], ast.NotIn)
+                parts = [ast.Compare(left=clone(n.left), ops=[ast.NotEq() if neg else ast.Eq()], comparators=[clone(x)]) for x in elts]
+                self.n += 1
+                return ast.copy_location(parts[0] if len(parts) == 1 else ast.BoolOp(op=ast.And() if neg else ast.Or(), values=parts), n)
+        return n
+
+
+def _v_index_loops(tree: ast.Module) -> int:
+    """`i = 0` / `while i < len(xs):` / .. xs[i] .. / `i += 1`  ->  `for x in xs:` when the body neither changes xs nor i otherwise"""
+    count = 0
+    for owner in list(ast.walk(tree)):
+        for field in ("body", "orelse", "finalbody"):
+            block = getattr(owner, field, None)
+            if not isinstance(block, list):
+                continue
+            for k in range(1, len(block)):
+                init, loop = block[k - 1], block[k]
+                if not (isinstance(loop, ast.While) and not loop.orelse and isinstance(init, ast.Assign) and len(init.targets) == 1
+                        and isinstance(init.targets[0], ast.Name) and isinstance(init.value, ast.Constant) and init.value.value == 0 and type(init.value.value) is int):
+                    continue
+                i = init.targets[0].id
+                t = loop.test
+                if not (isinstance(t, ast.Compare) and len(t.ops) == 1 and isinstance(t.ops[0], ast.Lt) and isinstance(t.left, ast.Name) and t.left.id == i
+                        and isinstance(t.comparators[0], ast.Call) and isinstance(t.comparators[0].func, ast.Name) and t.comparators[0].func.id == "len"
+                        and len(t.comparators[0].args) == 1 and isinstance(t.comparators[0].args[0], ast.Name)):
+                    continue
+                xs = t.comparators[0].args[0].id
+                last = loop.body[-1]
+                if not (isinstance(last, ast.AugAssign) and isinstance(last.op, ast.Add) and isinstance(last.target, ast.Name) and last.target.id == i
+                        and isinstance(last.value, ast.Constant) and last.value.value == 1) or len(loop.body) < 2:
+                    continue
+                body = loop.body[:-1]
+                ok = True
+                subs = []
+                for st in body:
+                    for x in ast.walk(st):
+                        if isinstance(x, (ast.Continue, ast.FunctionDef, ast.AsyncFunctionDef, ast.Lambda)):
+                            ok = False
+                        elif isinstance(x, ast.Name) and x.id == i:
+                            p_ = getattr(x, "_vp", None)
+                            ok = ok and isinstance(x.ctx, ast.Load)
+                        elif isinstance(x, ast.Name) and x.id == xs and isinstance(x.ctx, (ast.Store, ast.Del)):
+                            ok = False
+                        elif isinstance(x, ast.Subscript) and isinstance(x.value, ast.Name) and x.value.id == xs:
+                            if isinstance(x.ctx, ast.Load) and isinstance(x.slice, ast.Name) and x.slice.id == i:
+                                subs.append(x)
+                            else:
+                                ok = False
+                # every use of i is inside xs[i]; every use of xs is xs[i]
+                uses_i = sum(1 for st in body for x in ast.walk(st) if isinstance(x, ast.Name) and x.id == i)
+                uses_xs = sum(1 for st in body for x in ast.walk(st) if isinstance(x, ast.Name) and x.id == xs)
+                if not ok or not subs or uses_i != len(subs) or uses_xs != len(subs):
+                    continue
+                # i must be dead after the loop: no later read in the enclosing function before a new binding (conservative: no other mention at all)
+                fn = owner
+                scope = next((a for a in [owner, *_v_ancestors(tree, owner)] if isinstance(a, (ast.FunctionDef, ast.AsyncFunctionDef))), None)
+                if scope is None:
+                    continue
+                mentions_i = sum(1 for x in ast.walk(scope) if isinstance(x, ast.Name) and x.id == i)
+                if mentions_i != 1 + 1 + len(subs) + 1:        # init, test, xs[i].., increment
+                    continue
+                used = {x.id for x in ast.walk(scope) if isinstance(x, ast.Name)} | {x.arg for x in ast.walk(scope) if isinstance(x, ast.arg)}
+                var = f"{xs}_item"
+                while var in used:
+                    var += "_"
+
+                class R(ast.NodeTransformer):
+                    def visit_Subscript(self, x):
+                        if x in subs:
+                            return ast.copy_location(ast.Name(id=var, ctx=ast.Load()), x)
+                        return self.generic_visit(x)
+                new_body = [R().visit(st) for st in body]
+                block[k] = ast.copy_location(ast.For(target=ast.Name(id=var, ctx=ast.Store()), iter=ast.Name(id=xs, ctx=ast.Load()), body=new_body, orelse=[],
+                                                     type_comment=None), loop)
+                block[k - 1] = ast.copy_location(ast.Pass(), init)
+                count += 1
+    return count
+
+
+def _v_ancestors(tree, node):
+    parents = {}
+    for p_ in ast.walk(tree):
+        for c in ast.iter_child_nodes(p_):
+            parents[id(c)] = p_
+    out = []
+    cur = parents.get(id(node))
+    while cur is not None:
+        out.append(cur)
+        cur = parents.get(id(cur))
+    return out
+
+
+def _view_overrides(repo) -> dict[str, str]:
+    """{relpath: rewritten source} for the analysed files in which one of the local-view rewrites applies"""
+    from ..localnames import load_table
+    table = load_table()
+    out = {}
+    _PULLED.clear()
+    for rel in _VIEW_FILES:
+        m = repo.by_relpath.get(rel)
+        if m is None:
+            continue
+        tree = ast.parse(m.src)
+        v = _View(repo, m, tree, table)
+        v.pull_base_methods()
+        v.pull_called_functions()
+        v.expand_decorators()
+        v.pull_called_functions()       # functions the wrappers call
+        v.methodize()
+        ex = _VExpr(v)
+        ex.visit(tree)
+        n = v.n + ex.n + _v_index_loops(tree)
+        if not n:
+            continue
+        if v.new_defs:
+            at = next((i for i, st in enumerate(tree.body) if isinstance(st, (ast.FunctionDef, ast.AsyncFunctionDef, ast.ClassDef))), len(tree.body))
+            tree.body[at:at] = v.new_defs
+        ast.fix_missing_locations(tree)
+        out[rel] = ast.unparse(tree) + "\n"
+    return out
+
+
 def run(ctx: Ctx) -> None:
     _RUN_CTX[:] = [ctx]
+    original = ctx.repo
     try:
+        try:
+            view = _view_overrides(original)
+        except AnalysisError:
+            raise
+        except Exception as e:  # noqa: BLE001
+            # the view only removes reasons for false alarms: when it cannot cope with a file, the file is analysed as written
+            view = {}
+            ctx.note(f"local view skipped: {type(e).__name__}: {e}")
+        if view:
+            from ..model import Repo
+            try:
+                ctx.repo = Repo(original.root, overrides={**original.overrides, **view})
+                ctx.note("local view: " + ", ".join(sorted(view)) + " analysed after decorator expansion / pulling of moved helpers / expression rewrites")
+            except AnalysisError:
+                ctx.repo = original
+                _PULLED.clear()
         _run(ctx)
     finally:
+        ctx.repo = original
         _RUN_CTX[:] = []
 
 
@@ -4250,6 +5169,39 @@ WITNESSES = [
             if plan[0] in ("admit", "refuse"):
                 if peer not in self.verified_peers:
 """},
+    {"name": "a stale address-cache hit is answered with None without rescanning the verified peers (seeded C12-m13)", "file": NW, "rule": "coherence",
+     "edits": [{"file": NW, "old": """            if peer is not None and (peer not in self.verified_peers or address not in peer.addresses.values()):
+                # The cached peer was removed or no longer uses this address.
+                peer = None
+            if not peer:
+""", "new": """            if peer is None:
+"""}, {"file": NW, "old": """                        break
+            else:
+                # Refresh the peer in the cache""", "new": """                        break
+            elif peer not in self.verified_peers or address not in peer.addresses.values():
+                peer = None
+            else:
+                # Refresh the peer in the cache"""}]},
+    {"name": "cached per-service list filtered in place while iterating over it: the member after a removed one is skipped (seeded C12-m14)", "file": NW,
+     "rule": "coherence",
+     "old": """            out = [peer for peer in service_cache if
+                   peer in self.verified_peers
+                   and service_id in self.services_per_peer.get(peer.public_key.key_to_bin(), [])]""",
+     "new": """            for peer in service_cache:
+                if (peer not in self.verified_peers
+                        or service_id not in self.services_per_peer.get(peer.public_key.key_to_bin(), [])):
+                    service_cache.remove(peer)
+            out = service_cache"""},
+    {"name": "the purge of the service caches stops at the first cached list that held the removed peer", "file": NW, "rule": "removal",
+     "old": """            if peer in service_cache:
+                service_cache.remove(peer)
+
+    def snapshot""",
+     "new": """            if peer in service_cache:
+                service_cache.remove(peer)
+                break
+
+    def snapshot"""},
     {"name": "external writer of verified_peers", "file": "ipv8/peerdiscovery/community.py", "rule": "external-writers",
      "old": "        self.network.add_verified_peer(node)\n        self.network.discover_services(node, payload.preference_list)",
      "new": "        self.network.verified_peers.add(node)\n        self.network.discover_services(node, payload.preference_list)"},
